@@ -409,40 +409,112 @@ func manifestExtra(v any, e []byte, lab func(string)) error {
 	return nil
 }
 
-// itemExtra: Serialize agrees with the documented format and its limits are exact.
+// decoyItem is serialized through a reusable context right before the item under test: whatever the context
+// remembers of it (cache of written compounds, remaining count) must not leak into the next serialization.
+func decoyItem() stackitem.Item {
+	m := stackitem.NewMap()
+	m.Add(stackitem.NewByteArray([]byte("d")), stackitem.NewBool(false))
+	return stackitem.NewArray([]stackitem.Item{m, m, m, stackitem.NewStruct([]stackitem.Item{m})})
+}
+
+// itemExtra: every serializer entry point agrees with the documented format, and the count / size limits are exact
+// in both directions - also when one compound object is referenced many times (every reference counts in full,
+// exactly as the deserializer will count it).
 func itemExtra(v any, e []byte, lab func(string)) error {
 	it := v.(stackitem.Item)
 	var st itemStats
 	statItem(it, 0, &st)
 	ref, ok := refSerialize(nil, it, nil, false)
-	want := ok && !st.unser && st.count <= stackitem.MaxSerialized && len(ref) <= stackitem.MaxSize
-	if e == nil {
-		if want {
-			return fmt.Errorf("Serialize fails for an item of %d elements, %d bytes (limits %d / %d)", st.count, len(ref), stackitem.MaxSerialized, stackitem.MaxSize)
+	sizeOK := ok && !st.unser && len(ref) <= stackitem.MaxSize
+	want := sizeOK && st.count <= stackitem.MaxSerialized
+	sh := ""
+	if st.shared {
+		sh = " (with shared compounds)"
+		lab("item-shared")
+		if d := st.count - stackitem.MaxSerialized; d >= -3 && d <= 3 {
+			lab("item-shared-at-count-limit")
 		}
+	}
+	// All entry points with the default limit.
+	type path struct {
+		name string
+		run  func() ([]byte, error)
+	}
+	ctx := stackitem.NewSerializationContext()
+	paths := []path{
+		{"Serialize", func() ([]byte, error) { return e, map[bool]error{true: errors.New("refused"), false: nil}[e == nil] }},
+		{"EncodeBinary", func() ([]byte, error) {
+			w := io.NewBufBinWriter()
+			stackitem.EncodeBinary(it, w.BinWriter)
+			if w.Err != nil {
+				return nil, w.Err
+			}
+			return w.Bytes(), nil
+		}},
+		{"SerializeLimited(default)", func() ([]byte, error) { return stackitem.SerializeLimited(it, 0) }},
+		{"SerializationContext.Serialize (reused after another item)", func() ([]byte, error) {
+			if _, err := ctx.Serialize(decoyItem(), false); err != nil {
+				return nil, fmt.Errorf("decoy: %w", err)
+			}
+			b, err := ctx.Serialize(it, false)
+			return bytes.Clone(b), err
+		}},
+		{"SerializationContext.Serialize (same item again)", func() ([]byte, error) {
+			b, err := ctx.Serialize(it, false)
+			return bytes.Clone(b), err
+		}},
+	}
+	for _, p := range paths {
+		got, err := p.run()
+		switch {
+		case err != nil && want:
+			return fmt.Errorf("%s fails (%v) for an item of %d elements%s, %d bytes (limits %d / %d)", p.name, err, st.count, sh, len(ref), stackitem.MaxSerialized, stackitem.MaxSize)
+		case err == nil && !want:
+			_, derr := stackitem.Deserialize(got)
+			return fmt.Errorf("%s accepts an item outside the limits: %d elements%s, %d bytes, unserializable=%v; Deserialize of its output: %v", p.name, st.count, sh, len(ref), st.unser, derr)
+		case err == nil && !bytes.Equal(ref, got):
+			return keyed(refDiffKey(ref, got), "%s output differs from the documented format%s: %s", p.name, sh, firstDiff(fmt.Sprintf("%x", got), fmt.Sprintf("%x", ref)))
+		}
+	}
+	// The protected form of the same context: the item itself when it fits, Invalid otherwise.
+	if !st.unser {
+		pb, err := ctx.Serialize(it, true)
+		if err != nil || want && !bytes.Equal(pb, ref) || !want && !bytes.Equal(pb, []byte{byte(stackitem.InvalidT)}) {
+			return fmt.Errorf("SerializationContext.Serialize(protected) gives %x... (%v) for an item of %d elements%s, %d bytes", pb[:min(8, len(pb))], err, st.count, sh, len(ref))
+		}
+	}
+	// Custom limits: exactly the number of items passes, one less does not (beyond the default limit as well).
+	if sizeOK && st.count <= 3*stackitem.MaxSerialized {
+		got, err := stackitem.SerializeLimited(it, st.count)
+		if err != nil || !bytes.Equal(got, ref) {
+			return fmt.Errorf("SerializeLimited(limit=%d = number of items%s) fails or differs: %v", st.count, sh, err)
+		}
+		back, err := stackitem.DeserializeLimited(got, st.count)
+		if err != nil {
+			return fmt.Errorf("DeserializeLimited(limit=%d = number of items%s) fails: %v", st.count, sh, err)
+		}
+		if dumpItem(back) != dumpItem(it) {
+			return fmt.Errorf("SerializeLimited/DeserializeLimited(limit=%d) change the item%s: %s", st.count, sh, firstDiff(dumpItem(back), dumpItem(it)))
+		}
+		if st.count > 1 {
+			if out, err := stackitem.SerializeLimited(it, st.count-1); err == nil {
+				_, derr := stackitem.DeserializeLimited(out, st.count-1)
+				return fmt.Errorf("SerializeLimited(limit=%d) accepts %d items%s; DeserializeLimited of its output with the same limit: %v", st.count-1, st.count, sh, derr)
+			}
+			if _, err := stackitem.DeserializeLimited(ref, st.count-1); err == nil {
+				return fmt.Errorf("DeserializeLimited(limit=%d) accepts %d items%s", st.count-1, st.count, sh)
+			}
+		}
+	}
+	if e == nil {
 		lab("item-over-limit")
 		return nil
-	}
-	if !want {
-		return fmt.Errorf("Serialize succeeds for an item outside the limits: %d elements, %d bytes, unserializable=%v", st.count, len(ref), st.unser)
-	}
-	if !bytes.Equal(ref, e) {
-		return keyed(refDiffKey(ref, e), "Serialize output differs from the documented format: %s", firstDiff(fmt.Sprintf("%x", e), fmt.Sprintf("%x", ref)))
 	}
 	if st.count >= stackitem.MaxSerialized-2 {
 		lab("item-at-count-limit")
 	}
 	if len(e) >= stackitem.MaxSize-8 {
 		lab("item-at-size-limit")
-	}
-	// DeserializeLimited with the exact count must agree as well.
-	if _, err := stackitem.DeserializeLimited(e, st.count); err != nil {
-		return fmt.Errorf("DeserializeLimited(limit=%d = number of items) fails: %v", st.count, err)
-	}
-	if st.count > 1 {
-		if _, err := stackitem.DeserializeLimited(e, st.count-1); err == nil {
-			return fmt.Errorf("DeserializeLimited(limit=%d) accepts %d items", st.count-1, st.count)
-		}
 	}
 	return nil
 }
